@@ -283,3 +283,56 @@ package federation
 //@ ensures [C17] forall n string :: old(has(f.peers, n)) ==> has(f.peers, n) && f.peers[n] == old(f.peers[n]) && f.peers[n].queue == old(f.peers[n].queue)
 //@ ensures [C17] forall j int :: 0 <= j && j < len(member.Members) && member.Members[j].Name != f.nodeName ==> has(f.peers, member.Members[j].Name)
 //@ ensures [C17] !old(has(f.peers, f.nodeName)) ==> !has(f.peers, f.nodeName)
+
+// ---------------------------------------------------------------------------
+// C17 — the hook wrappers that tell the peers about this node's subscriptions. The wrapped hook of the next plugin is
+// called first, once (plugin code: it is assumed not to touch the federation's state); then: a Subscribe event goes on
+// every peer's queue, once, exactly when the subscription is the first local holder of its full topic name
+// (localSubStore.subscribeLocked says "new") and carries the subscription's share name and filter; an Unsubscribe event
+// goes on every peer's queue, once, exactly when the last local holder left.
+//@ ghost var preCalls int
+//@ func type server.OnSubscribed
+//@ params ctx, client, subscription
+//@ modifies heap, $preCalls
+//@ preserves all(Federation.*), all(peer.*), all(localSubStore.*), all(gmqtt.Subscription.*), all(server.ClientOptions.*), allmaps(string, *peer), allmaps(string, uint64), allmaps(string, struct{}), allmaps(string, map[string]struct{}), allcells(*Federation)
+//@ ensures $preCalls == old($preCalls) + 1
+//@ func type server.OnUnsubscribed
+//@ params ctx, client, topicName
+//@ modifies heap, $preCalls
+//@ preserves all(Federation.*), all(peer.*), all(localSubStore.*), all(server.ClientOptions.*), allmaps(string, *peer), allmaps(string, uint64), allmaps(string, struct{}), allmaps(string, map[string]struct{}), allcells(*Federation)
+//@ ensures $preCalls == old($preCalls) + 1
+// the broker hands the hooks a client with its options
+//@ func (server.Client).ClientOptions
+//@ params c
+//@ ensures result != nil
+//@ func (*localSubStore).subscribe inline
+
+//@ func (*Federation).OnSubscribedWrapper$1
+//@ props C17
+//@ let L = f.localSubStore
+//@ let key = fullName(subscription)
+//@ requires [C17] f != nil && pre != nil && client != nil && peersOK(f) && lsOK(f.localSubStore) && f.localSubStore != nil
+//@ modifies heap, $preCalls, ghostall(queue.$qadds), ghostall(queue.$lastEv)
+//@ waive overflow
+//@ loop 1 invariant f != nil && f == old(f) && peersOK(f) && subscription != nil && subscription == old(subscription) && f.peers == old(f.peers)
+//@ loop 1 invariant forall n string :: has(f.peers, n) ==> f.peers[n].queue.$qadds == old(f.peers[n].queue.$qadds) + (visited(1, n) ? 1 : 0)
+//@ call queue.add#1 assert [C17] event != nil && event.Event.(type *Event_Subscribe) && event.Event.(*Event_Subscribe) != nil && event.Event.(*Event_Subscribe).Subscribe != nil && event.Event.(*Event_Subscribe).Subscribe.ShareName == subscription.ShareName && event.Event.(*Event_Subscribe).Subscribe.TopicFilter == subscription.TopicFilter
+//@ ensures [C17] $preCalls == old($preCalls) + 1
+//@ ensures [C17] subscription != nil && !old(has(L.topics, key)) && (forall c string :: !old(holds(L, c, key))) ==> (forall n string :: has(f.peers, n) ==> f.peers[n].queue.$qadds == old(f.peers[n].queue.$qadds) + 1)
+//@ ensures [C17] subscription == nil || old(has(L.topics, key)) ==> (forall n string :: has(f.peers, n) ==> f.peers[n].queue.$qadds == old(f.peers[n].queue.$qadds))
+
+//@ func (*Federation).OnUnsubscribedWrapper$1
+//@ props C17
+//@ let L = f.localSubStore
+//@ requires [C17] f != nil && pre != nil && client != nil && peersOK(f) && lsOK(f.localSubStore) && f.localSubStore != nil
+//@ modifies heap, $preCalls, ghostall(queue.$qadds), ghostall(queue.$lastEv)
+//@ loop 1 invariant f != nil && f == old(f) && peersOK(f) && topicName == old(topicName) && f.peers == old(f.peers)
+//@ loop 1 invariant forall n string :: has(f.peers, n) ==> f.peers[n].queue.$qadds == old(f.peers[n].queue.$qadds) + (visited(1, n) ? 1 : 0)
+//@ call queue.add#1 assert [C17] event != nil && event.Event.(type *Event_Unsubscribe) && event.Event.(*Event_Unsubscribe) != nil && event.Event.(*Event_Unsubscribe).Unsubscribe != nil && event.Event.(*Event_Unsubscribe).Unsubscribe.TopicName == topicName
+//@ ensures [C17] $preCalls == old($preCalls) + 1
+// nobody is told while some local client still holds the topic, or when the client did not hold it at all
+//@ ensures [C17] old(has(L.topics, topicName)) && old(L.topics[topicName]) > 1 ==> (forall n string :: has(f.peers, n) ==> f.peers[n].queue.$qadds == old(f.peers[n].queue.$qadds))
+//@ ensures [C17] (forall c string :: !old(holds(L, c, topicName))) ==> (forall n string :: has(f.peers, n) ==> f.peers[n].queue.$qadds == old(f.peers[n].queue.$qadds))
+// every peer is told, once, when the last holder left: afterwards the topic has no count and at most one event went to each peer
+//@ ensures [C17] forall n string :: has(f.peers, n) ==> f.peers[n].queue.$qadds <= old(f.peers[n].queue.$qadds) + 1
+//@ ensures [C17] has(L.topics, topicName) ==> (forall n string :: has(f.peers, n) ==> f.peers[n].queue.$qadds == old(f.peers[n].queue.$qadds))
